@@ -22,6 +22,18 @@ const EPOCH_S: i64 = 1_700_000_000;
 // ---- source pools ------------------------------------------------------------------------------
 
 const HDR: &str = "%grmtools{yacckind: Grmtools}\n";
+const HDR_ORIG: &str = "%grmtools{yacckind: Original(NoAction)}\n";
+const G9: &str = concat!(
+    "%start Expr\n%%\nExpr -> u64: Expr \"+\" Term { $1 + $3 } | Term { $1 } ;\nTerm -> u64: Term \"*\" Factor { $1 * $3 } | Factor { $1 } ;\nFactor -> u64: \"(\" Expr \")\" { $2 } | \"INT\" { 0 } | \"(\" \"*\"",
+    // 6 x 50 tokens
+    " \"INT\" \"INT\" \"INT\" \"INT\" \"INT\" \"INT\" \"INT\" \"INT\" \"INT\" \"INT\" \"INT\" \"INT\" \"INT\" \"INT\" \"INT\" \"INT\" \"INT\" \"INT\" \"INT\" \"INT\" \"INT\" \"INT\" \"INT\" \"INT\" \"INT\" \"INT\" \"INT\" \"INT\" \"INT\" \"INT\" \"INT\" \"INT\" \"INT\" \"INT\" \"INT\" \"INT\" \"INT\" \"INT\" \"INT\" \"INT\" \"INT\" \"INT\" \"INT\" \"INT\" \"INT\" \"INT\" \"INT\" \"INT\" \"INT\" \"INT\"",
+    " \"INT\" \"INT\" \"INT\" \"INT\" \"INT\" \"INT\" \"INT\" \"INT\" \"INT\" \"INT\" \"INT\" \"INT\" \"INT\" \"INT\" \"INT\" \"INT\" \"INT\" \"INT\" \"INT\" \"INT\" \"INT\" \"INT\" \"INT\" \"INT\" \"INT\" \"INT\" \"INT\" \"INT\" \"INT\" \"INT\" \"INT\" \"INT\" \"INT\" \"INT\" \"INT\" \"INT\" \"INT\" \"INT\" \"INT\" \"INT\" \"INT\" \"INT\" \"INT\" \"INT\" \"INT\" \"INT\" \"INT\" \"INT\" \"INT\" \"INT\"",
+    " \"INT\" \"INT\" \"INT\" \"INT\" \"INT\" \"INT\" \"INT\" \"INT\" \"INT\" \"INT\" \"INT\" \"INT\" \"INT\" \"INT\" \"INT\" \"INT\" \"INT\" \"INT\" \"INT\" \"INT\" \"INT\" \"INT\" \"INT\" \"INT\" \"INT\" \"INT\" \"INT\" \"INT\" \"INT\" \"INT\" \"INT\" \"INT\" \"INT\" \"INT\" \"INT\" \"INT\" \"INT\" \"INT\" \"INT\" \"INT\" \"INT\" \"INT\" \"INT\" \"INT\" \"INT\" \"INT\" \"INT\" \"INT\" \"INT\" \"INT\"",
+    " \"INT\" \"INT\" \"INT\" \"INT\" \"INT\" \"INT\" \"INT\" \"INT\" \"INT\" \"INT\" \"INT\" \"INT\" \"INT\" \"INT\" \"INT\" \"INT\" \"INT\" \"INT\" \"INT\" \"INT\" \"INT\" \"INT\" \"INT\" \"INT\" \"INT\" \"INT\" \"INT\" \"INT\" \"INT\" \"INT\" \"INT\" \"INT\" \"INT\" \"INT\" \"INT\" \"INT\" \"INT\" \"INT\" \"INT\" \"INT\" \"INT\" \"INT\" \"INT\" \"INT\" \"INT\" \"INT\" \"INT\" \"INT\" \"INT\" \"INT\"",
+    " \"INT\" \"INT\" \"INT\" \"INT\" \"INT\" \"INT\" \"INT\" \"INT\" \"INT\" \"INT\" \"INT\" \"INT\" \"INT\" \"INT\" \"INT\" \"INT\" \"INT\" \"INT\" \"INT\" \"INT\" \"INT\" \"INT\" \"INT\" \"INT\" \"INT\" \"INT\" \"INT\" \"INT\" \"INT\" \"INT\" \"INT\" \"INT\" \"INT\" \"INT\" \"INT\" \"INT\" \"INT\" \"INT\" \"INT\" \"INT\" \"INT\" \"INT\" \"INT\" \"INT\" \"INT\" \"INT\" \"INT\" \"INT\" \"INT\" \"INT\"",
+    " \"INT\" \"INT\" \"INT\" \"INT\" \"INT\" \"INT\" \"INT\" \"INT\" \"INT\" \"INT\" \"INT\" \"INT\" \"INT\" \"INT\" \"INT\" \"INT\" \"INT\" \"INT\" \"INT\" \"INT\" \"INT\" \"INT\" \"INT\" \"INT\" \"INT\" \"INT\" \"INT\" \"INT\" \"INT\" \"INT\" \"INT\" \"INT\" \"INT\" \"INT\" \"INT\" \"INT\" \"INT\" \"INT\" \"INT\" \"INT\" \"INT\" \"INT\" \"INT\" \"INT\" \"INT\" \"INT\" \"INT\" \"INT\" \"INT\" \"INT\"",
+    " \")\" { 0 } ;\n"
+);
 pub const GRAMMARS: &[(&str, &str)] = &[
     ("g0-calc", "%start Expr\n%%\nExpr -> u64: Expr \"+\" Term { $1 + $3 } | Term { $1 } ;\nTerm -> u64: Term \"*\" Factor { $1 * $3 } | Factor { $1 } ;\nFactor -> u64: \"(\" Expr \")\" { $2 } | \"INT\" { 0 } ;\n"),
     ("g1-minus", "%start Expr\n%%\nExpr -> u64: Expr \"+\" Term { $1 + $3 } | Expr \"-\" Term { $1 - $3 } | Term { $1 } ;\nTerm -> u64: Term \"*\" Factor { $1 * $3 } | Factor { $1 } ;\nFactor -> u64: \"(\" Expr \")\" { $2 } | \"INT\" { 0 } ;\n"),
@@ -31,6 +43,13 @@ pub const GRAMMARS: &[(&str, &str)] = &[
     ("g5-unused-token-warning", "%start Expr\n%token UNUSED\n%%\nExpr -> u64: Expr \"+\" Term { $1 + $3 } | Term { $1 } ;\nTerm -> u64: Term \"*\" Factor { $1 * $3 } | Factor { $1 } ;\nFactor -> u64: \"(\" Expr \")\" { $2 } | \"INT\" { 0 } ;\n"),
     ("g7-same-tokens-other-ids", "%start Expr\n%token \"INT\" \")\" \"(\" \"*\" \"+\"\n%%\nExpr -> u64: Expr \"+\" Term { $1 + $3 } | Term { $1 } ;\nTerm -> u64: Term \"*\" Factor { $1 * $3 } | Factor { $1 } ;\nFactor -> u64: \"(\" Expr \")\" { $2 } | \"INT\" { 0 } ;\n"),
     ("g8-same-tokens-other-ids-2", "%start Expr\n%token \"*\" \"+\" \"INT\" \"(\" \")\"\n%%\nExpr -> u64: Expr \"+\" Term { $1 + $3 } | Term { $1 } ;\nTerm -> u64: Term \"*\" Factor { $1 * $3 } | Factor { $1 } ;\nFactor -> u64: \"(\" Expr \")\" { $2 } | \"INT\" { 0 } ;\n"),
+    // one production with 300 symbols: more than 255 LR states, which a `u8` storage type
+    // cannot number (the table builder panics) - a *valid* grammar whose build fails by panic
+    ("g9-long-production", G9),
+    // Original-Yacc syntax (no action types): builds under Original(NoAction) and
+    // Original(GenericParseTree), which must not be confused with each other
+    ("go0-orig", "%start Expr\n%%\nExpr: Expr \"+\" Term | Term ;\nTerm: Term \"*\" Factor | Factor ;\nFactor: \"(\" Expr \")\" | \"INT\" ;\n"),
+    ("go1-orig-other-rules", "%start Expr\n%%\nExpr: Term \"+\" Expr | Term ;\nTerm: Factor \"*\" Term | Factor ;\nFactor: \"(\" Expr \")\" | \"INT\" ;\n"),
     ("g6-comment-only-change", "%start Expr\n%%\n// a comment\nExpr -> u64: Expr \"+\" Term { $1 + $3 } | Term { $1 } ;\nTerm -> u64: Term \"*\" Factor { $1 * $3 } | Factor { $1 } ;\nFactor -> u64: \"(\" Expr \")\" { $2 } | \"INT\" { 0 } ;\n"),
 ];
 pub const BROKEN_GRAMMARS: &[(&str, &str)] = &[
@@ -100,7 +119,9 @@ fn grammar_text(name: &str, header: bool) -> String {
     if name == "gbh-bad-header" {
         return format!("%grmtools{{yacckind: Nonsense}}\n{}", GRAMMARS[0].1);
     }
-    if header {
+    if header && name.starts_with("go") {
+        format!("{HDR_ORIG}{body}")
+    } else if header {
         format!("{HDR}{body}")
     } else {
         body.to_string()
@@ -122,6 +143,7 @@ fn set_popt(o: &mut ParserOpts, k: &str, v: &Option<String>) {
         "warnings_are_errors" => o.warnings_are_errors = b(v),
         "show_warnings" => o.show_warnings = b(v),
         "serialisation_format" => o.serialisation_format = v.clone(),
+        "storaget" => o.storaget = v.clone(),
         _ => {}
     }
 }
@@ -196,6 +218,7 @@ pub fn execute(exe: &Path, sc: &BScenario, dir: &Path) -> BReport {
         warnings_are_errors: Some(true),
         show_warnings: Some(false),
         serialisation_format: Some("VariableSizedInteger".into()),
+        storaget: Some("u32".into()),
     };
     let mut lopts = LexerOpts {
         visibility: Some("Private".into()),
@@ -280,13 +303,19 @@ pub fn execute(exe: &Path, sc: &BScenario, dir: &Path) -> BReport {
                 // recoverer is CPCT+ (no test grammar sets one in its header)
                 let mut eff = popts.clone();
                 if eff.yacckind.is_none() {
-                    eff.yacckind = Some(if gsrc.starts_with(HDR) { "Grmtools".into() } else { "<missing>".into() });
+                    eff.yacckind = Some(if gsrc.starts_with(HDR) {
+                        "Grmtools".into()
+                    } else if gsrc.starts_with(HDR_ORIG) {
+                        "Original(NoAction)".into()
+                    } else {
+                        "<missing>".into()
+                    });
                 }
                 if eff.recoverer.is_none() {
                     eff.recoverer = Some("CPCTPlus".into());
                 }
                 let key_y = Key(gsrc.clone(), format!("{:?}", eff));
-                let key_l = Key(format!("{gsrc}\u{0}{lsrc}"), format!("{:?}|{:?}", eff.yacckind, lopts));
+                let key_l = Key(format!("{gsrc}\u{0}{lsrc}"), format!("{:?}|{:?}|{:?}", eff.yacckind, eff.storaget, lopts));
                 let before_y = (std::fs::read(&py).ok(), mtime_ns(&py));
                 let before_l = (std::fs::read(&pl).ok(), mtime_ns(&pl));
                 let src_tie = {
@@ -459,7 +488,7 @@ pub fn execute(exe: &Path, sc: &BScenario, dir: &Path) -> BReport {
 }
 
 const POPT_POOL: &[(&str, &[&str])] = &[
-    ("yacckind", &["Grmtools", "Original(GenericParseTree)"]),
+    ("yacckind", &["Grmtools", "Original(GenericParseTree)", "Original(NoAction)"]),
     ("recoverer", &["None", "CPCTPlus"]),
     ("visibility", &["Private", "Public", "PublicSuper", "PublicSelf", "PublicCrate", "PublicIn:crate::parsers", "PublicIn:crate::frontend"]),
     ("rust_edition", &["2015", "2018", "2021"]),
@@ -468,6 +497,7 @@ const POPT_POOL: &[(&str, &[&str])] = &[
     ("warnings_are_errors", &["true", "false"]),
     ("show_warnings", &["true", "false"]),
     ("serialisation_format", &["FixedSizeInteger", "VariableSizedInteger"]),
+    ("storaget", &["u8", "u16", "u32"]),
 ];
 const LOPT_POOL: &[(&str, &[&str])] = &[
     ("visibility", &["Private", "Public", "PublicSuper", "PublicSelf", "PublicCrate", "PublicIn:crate::parsers", "PublicIn:crate::frontend"]),
@@ -499,6 +529,11 @@ pub fn generate(r: &mut Rng, max_ops: usize) -> BScenario {
     let mut last_l: Option<String> = None;
     let n = 3 + r.below(max_ops as u64 - 2) as usize;
     let mut ops = vec![];
+    // a history that keeps returning to the yacckind mostly starts from a grammar in Original
+    // Yacc syntax, so that more than one kind builds successfully
+    if focus_p.map_or(false, |f| POPT_POOL[f].0 == "yacckind") && r.chance(70) {
+        ops.push(Op::EditGrammar(if r.chance(50) { "go0-orig" } else { "go1-orig-other-rules" }.to_string(), r.chance(50)));
+    }
     let ticks = [0u64, 1, 1_000, 1_000_000_000, 3_600_000_000_000];
     let mut since_build = 0;
     while ops.len() < n {
@@ -511,7 +546,7 @@ pub fn generate(r: &mut Rng, max_ops: usize) -> BScenario {
             // half of the time the next value is a *relative* of the previous one (one rendering a
             // prefix of the other, or the same constructor with another argument): the pairs a
             // sloppy comparison of recorded settings confuses
-            let related = |a: &str, b: &str| a != b && (a.starts_with(b) || b.starts_with(a) || (a.contains(':') && b.contains(':') && a.split(':').next() == b.split(':').next()));
+            let related = |a: &str, b: &str| a != b && (a.starts_with(b) || b.starts_with(a) || (a.contains(':') && b.contains(':') && a.split(':').next() == b.split(':').next()) || (a.contains('(') && b.contains('(') && a.split('(').next() == b.split('(').next()));
             let mut pick_next = |r: &mut Rng, vals: &[&str], last: &Option<String>| -> String {
                 if let (Some(l), true) = (last, r.chance(50)) {
                     let rel: Vec<&&str> = vals.iter().filter(|v| related(v, l)).collect();
